@@ -549,7 +549,7 @@ class CallMixin:
             self.old_state = saved_old
 
 
-OPAQUE_PURE_METHODS = {"search", "match", "fullmatch", "group", "start", "end", "get", "lower", "upper", "strip"}
+OPAQUE_PURE_METHODS = {"search", "match", "fullmatch", "group", "start", "end", "get", "lower", "upper", "strip", "sub"}
 
 
 class VStrOrList(V):
